@@ -241,3 +241,40 @@ func VerifC05_CrossSession() {
 	}
 	verif.Reached("end")
 }
+
+// the cipher-suite registry equals the specification's table (FDO 1.1, 4.4): the
+// three AES-GCM suites are AEAD, the four AES-CBC/CTR suites are encrypt-then-MAC
+// with HMAC-SHA256 (128-bit) resp. HMAC-SHA384 (256-bit); every TO2 message of an
+// encrypt-then-MAC suite therefore carries a MAC.
+func VerifC05_SuiteTable() {
+	verif.NoPanic()
+	verif.Bound("C05 table", "the 7 registered cipher suite ids")
+	type row struct {
+		id   CipherSuiteID
+		enc  cose.EncryptAlgorithm
+		mac  cose.MacAlgorithm
+		bits uint16
+	}
+	table := []row{
+		{A128GcmCipher, cose.A128GCM, 0, 128}, {A192GcmCipher, cose.A192GCM, 0, 192}, {A256GcmCipher, cose.A256GCM, 0, 256},
+		{CoseAes128CbcCipher, cose.A128CBC, cose.HMac256, 128}, {CoseAes128CtrCipher, cose.A128CTR, cose.HMac256, 128},
+		{CoseAes256CbcCipher, cose.A256CBC, cose.HMac384, 256}, {CoseAes256CtrCipher, cose.A256CTR, cose.HMac384, 256},
+	}
+	r := table[verif.Choose("suite", len(table))]
+	s := r.id.Suite()
+	verif.Assert(s.EncryptAlg == r.enc, "the suite's encryption algorithm is the specified one")
+	verif.Assert(s.MacAlg == r.mac, "AEAD suites have no separate MAC; encrypt-then-MAC suites use HMAC-SHA256 (128-bit) / HMAC-SHA384 (256-bit)")
+	verif.Assert(s.EncryptAlg.KeySize() == r.bits/8 || s.EncryptAlg.KeySize() == r.bits, "key size")
+	// and a message of an encrypt-then-MAC suite is a COSE_Mac0
+	sess := vSession(r.id, "")
+	msg, err := sess.Encrypt(nil, []byte{1})
+	verif.Assert(err == nil, "Encrypt")
+	wire, err := cbor.Marshal(msg)
+	verif.Assert(err == nil, "encode")
+	if r.mac != 0 {
+		verif.Assert(len(wire) > 0 && wire[0] == 0xd1, "encrypt-then-MAC suites send COSE_Mac0 (tag 17)")
+	} else {
+		verif.Assert(len(wire) > 0 && wire[0] == 0xd0, "AEAD suites send COSE_Encrypt0 (tag 16)")
+	}
+	verif.Reached("end")
+}
